@@ -212,6 +212,44 @@ def m_ecp_zero_column(b, rng):
     return True
 
 
+def _one_term_zero(pot):
+    pot['r_exponents'] = pot['r_exponents'][:1]
+    pot['gaussian_exponents'] = pot['gaussian_exponents'][:1]
+    pot['coefficients'] = [['0.0'] for _ in pot['coefficients']][:1]
+
+
+def m_ecp_placeholder_not_highest(b, rng):
+    """a one-term potential with a zero coefficient is a placeholder only for the highest angular momentum"""
+    zs = [z for z, el in b['elements'].items() if len(el.get('ecp_potentials', [])) >= 2]
+    if not zs:
+        return False
+    pots = b['elements'][rng.choice(zs)]['ecp_potentials']
+    top = max(p['angular_momentum'] for p in pots)
+    _one_term_zero(rng.choice([p for p in pots if p['angular_momentum'] != top]))
+    return True
+
+
+def m_ecp_zero_row(b, rng):
+    """a term whose coefficient is zero in a potential of several terms"""
+    p = [x for x in pots_of(b) if len(x[2]['r_exponents']) > 1 and len(x[2]['coefficients']) == 1]
+    if not p:
+        return False
+    pot = rng.choice(p)[2]
+    pot['coefficients'][0][rng.randrange(len(pot['r_exponents']))] = '0.0'
+    return True
+
+
+def v_ecp_placeholder_highest(b, rng):
+    """VALID variation: the highest angular momentum may be a one-term placeholder with a zero coefficient"""
+    zs = [z for z, el in b['elements'].items() if len(el.get('ecp_potentials', [])) >= 1]
+    if not zs:
+        return False
+    pots = b['elements'][rng.choice(zs)]['ecp_potentials']
+    top = max(p['angular_momentum'] for p in pots)
+    _one_term_zero([p for p in pots if p['angular_momentum'] == top][0])
+    return True
+
+
 # schema-shape mutations
 def m_missing_key(b, rng):
     s = shells_of(b)
@@ -317,7 +355,7 @@ def m_missing_top(b, rng):
 
 CATALOGUE = [m_no_elements, m_negative_exp, m_zero_exp, m_dup_exp, m_short_row, m_long_row, m_zero_column, m_unused_primitive,
              m_dup_column, m_fused_count, m_tag_missing, m_tag_extra, m_ecp_fused, m_ecp_dup_am, m_ecp_len_gexp, m_ecp_len_coef,
-             m_ecp_no_electrons, m_ecp_zero_electrons, m_ecp_zero_column, m_missing_key, m_extra_key, m_number_not_string,
+             m_ecp_no_electrons, m_ecp_zero_electrons, m_ecp_zero_column, m_ecp_placeholder_not_highest, m_ecp_zero_row, m_missing_key, m_extra_key, m_number_not_string,
              m_am_negative, m_am_repeated, m_bad_function_type, m_bad_element_key, m_empty_shell_list, m_empty_exponents,
              m_name_not_in_names, m_bad_role, m_missing_top]
 
@@ -361,6 +399,9 @@ def work_generated(ctx, seed):
     for kind in ('complete', 'component', 'minimal'):
         b = to_kind(base, kind)
         check(ctx, kind, b, True, 'gen:%d' % seed)
+        v = copy.deepcopy(b)
+        if v_ecp_placeholder_highest(v, rng):
+            check(ctx, kind, v, True, 'gen:%d:placeholder' % seed)
         muts = CATALOGUE if ctx.thorough() or ctx.boost else rng.sample(CATALOGUE, 12)
         for mut in muts:
             for _rep in range(3 if ctx.thorough() else 1):
